@@ -59,6 +59,18 @@ PROPS["C13"] = dict(
                  "population choices of the enumeration stage come from a PRNG seeded from (VERIF_SEED, pair index, variant); the replay file records them"],
 )
 
+PROPS["C16"] = dict(
+    pkg="./props/store", level="exploration", design_ref="DESIGN.md §3 C16",
+    technique="rapid state-machine (model-based) testing of the memory, file and sqlite-backed SQL stores against one in-memory reference model, with refresh / reopen / second-instance reads",
+    stages=[dict(name="memfile", kind="rapid", run="^TestC16_MemFile$", checks=(2500, 25000), shards=(12, 16), timeout=(500, 3000)),
+            dict(name="sql", kind="rapid", run="^TestC16_SQL$", checks=(300, 4000), shards=(12, 16), timeout=(500, 3000))],
+    require=["store:memory", "store:file-sync", "store:file-nosync", "store:sql", "multi-session", "history-with:reopen-after-save",
+             "history-with:read-after-reopen", "history-with:reset", "history-with:abort"],
+    assumptions=["save numbers are strictly ascending within an epoch (the statement's precondition)",
+                 "the SQL store is exercised on sqlite3 with the repository's own DDL; the Mongo store needs a server and is outside the statement's three stores",
+                 "creation times are compared as instants; 'renewed' means between the wall-clock readings taken around the call"],
+)
+
 NOT_APPLICABLE = {}
 
 HOOK_COMMITS = ["ce15100"]
